@@ -325,7 +325,20 @@ def inline_aliases(fn, interesting):
     import copy
 
     counts, defs = {}, {}
+    # a parameter is bound on entry: an assignment to it is a second binding, never an alias definition
+    if isinstance(fn, FuncTypes + (ast.Lambda,)):
+        a_ = fn.args
+        for p_ in [*a_.posonlyargs, *a_.args, *a_.kwonlyargs, *([a_.vararg] if a_.vararg else []), *([a_.kwarg] if a_.kwarg else [])]:
+            counts[p_.arg] = 1
     for n in walk_no_nested(fn):
+        if isinstance(n, (ast.With, ast.AsyncWith)):
+            for it in n.items:
+                if it.optional_vars is not None:
+                    for t in ast.walk(it.optional_vars):
+                        if isinstance(t, ast.Name):
+                            counts[t.id] = counts.get(t.id, 0) + 2
+        if isinstance(n, ast.ExceptHandler) and n.name:
+            counts[n.name] = counts.get(n.name, 0) + 2
         if isinstance(n, ast.Assign):
             for tt in n.targets:
                 for t in _targets(tt):
